@@ -65,6 +65,23 @@ func TestVerifReplay(t *testing.T) {
 			if len(got) > size+100 { break }
 		}
 		if !bytes.Equal(got, content) { t.Logf("REPLAY-CONFIRMED sequential reads returned %d bytes that differ from the %d-byte content", len(got), size); return }
+		// a read cut short by the end of the file, then a seek relative to the current position
+		if size >= 2 {
+			j4, _, _ := joiner.New(ctx, st, storage.ModeGetLookup, addr)
+			_, _ = j4.Seek(int64(size)/2, 0)
+			big := make([]byte, size) // longer than what is left
+			n, _ := j4.Read(big)
+			here := int64(size)/2 + int64(n)
+			pos, err := j4.Seek(0, 1)
+			if err != nil || pos != here {
+				t.Logf("REPLAY-CONFIRMED after Seek(%d), a Read into a %d-byte buffer that returned %d bytes, Seek(0, current) on a %d-byte file answers %d, %v; the position is %d", size/2, len(big), n, size, pos, err, here); return
+			}
+			if here >= 1 {
+				if pos, err := j4.Seek(-1, 1); err != nil || pos != here-1 {
+					t.Logf("REPLAY-CONFIRMED after a short read ending at %d, Seek(-1, current) answers %d, %v", here, pos, err); return
+				}
+			}
+		}
 		// seek
 		type sk struct{ off int64; whence int }
 		for _, s := range []sk{{0, 0}, {int64(size), 0}, {int64(size) + 1, 0}, {-1, 0}, {3, 1}, {-2, 1}, {0, 2}, {1, 2}, {int64(size), 2}, {int64(size) + 1, 2}, {0, 3}} {
